@@ -85,10 +85,12 @@ class Unjudgeable(Exception):
     pass
 
 
-def fold(op, operands, order="left"):
+def fold(op, operands, order="left", bounded=False):
     """model of an n-ary + - * / over mixed operands; returns Fraction | float(binary32) | 'div0'.
     Raises Unjudgeable when a conversion to binary32 is not unique or an exact intermediate is not representable."""
     xs = list(operands)
+    if bounded and any(is_exact(x) and not representable(x) for x in xs):
+        raise Unjudgeable()        # an exact operand (a literal) outside the exact range is inexact from the start
     if op in "+*":
         ident = Fraction(0) if op == "+" else Fraction(1)
         seq = [ident] + xs if order == "left" else xs + [ident]
@@ -111,12 +113,15 @@ def fold(op, operands, order="left"):
                 r = a - b
             else:
                 r = a * b
+            if bounded and not representable(r):
+                # the exact intermediate does not fit the interpreter's exact range: it turns inexact there, by a conversion the property does not fix
+                raise Unjudgeable()
             return r
         fa = to_f32(a) if is_exact(a) else (a.value if isinstance(a, Real) else a)
         fb = to_f32(b) if is_exact(b) else (b.value if isinstance(b, Real) else b)
         if fa is None or fb is None:
             raise Unjudgeable()
-        if is_exact(a) and not representable(a):
+        if (is_exact(a) and not representable(a)) or (is_exact(b) and not representable(b)):
             raise Unjudgeable()
         return f32_op(op, fa, fb)
     if order == "left" or op in "-/":
